@@ -316,7 +316,11 @@ def run(ctx):
         "binned estimator; round 3: _get_nearest_neighbors on tied small-integer / half-integer / power-of-two-scaled "
         "arrays (T 2..39, dim 2..6, every k < T), only_tri and _calculate_mi of the pure-Python class on small "
         "integer / symbol arrays, surrogate matrices on re-played numpy draws (float32/float64, C/F), 8-call "
-        "histories on one pure-Python object; distinct = "
+        "histories on one pure-Python object; round 5: rational matrices N 1..6 (regular, singular, row swaps, 2^+-40 row "
+        "scalings) for the elimination / numpy.linalg.inv, exactly collinear integer series N 2..6 (duplicate, affine, "
+        "anti-correlated copy, sum of two, combination of three) and reordered / power-of-two affine images of "
+        "well-conditioned series through PartialCorrelationClimateNetwork, ragged tie-free rows T 1..59 for "
+        "_quantile_bin_array; distinct = "
         "distinct (suite, shape, data, parameters); non-trivial = at least two non-constant series")
     ctx.trusted = common.DEFAULT_TRUSTED + [
         "log, sqrt, digamma, numpy.corrcoef, numpy.linalg.inv/pinv, scipy.linalg.qr are library "
@@ -328,7 +332,7 @@ def run(ctx):
 
     import time
     stages = ctx.extra.setdefault("stage_seconds", {"proofs": round(time.time() - ctx.t0, 1)})
-    for fn in (kernel_level, data_level_model, model_round2, model_round3, model_round4, oracle_coupling, oracle_wide, oracle_long_lags,
+    for fn in (kernel_level, data_level_model, model_round2, model_round3, model_round4, model_round5, oracle_coupling, oracle_wide, oracle_long_lags,
                oracle_periodic, oracle_knn, oracle_pure_python, oracle_climate, oracle_surrogates):
         t0 = time.time()
         try:
@@ -915,7 +919,7 @@ def model_round2(ctx, rng, nprng, quick):
         ctx.count("data:partial_correlation")
 
         def compare(m, got=got, N=N):
-            if m == "singular":
+            if m.startswith("singular"):
                 return "model: covariance matrix singular, but numpy reports a small condition number"
             cert, ninv, pc, piv = m.split("|")
             if cert != "1":
@@ -958,7 +962,7 @@ def model_round4(ctx, rng, nprng, quick):
             m = rng.choice([1, 2, 3, 5, 8, 20])
             T = m * bins
         else:
-            T = rng.choice([1, 2, 3, 5, 7, 11, 13, 26, 50])
+            T = rng.choice([1, 2, 3, 5, 7, 11, 13, 26, 50, rng.randrange(1, 60)])
         if kind == "ties":
             base = nprng.randint(0, max(2, T // 2), size=T).astype(float)
         else:
@@ -985,6 +989,17 @@ def model_round4(ctx, rng, nprng, quick):
                          f"tie-free row of T = {T} = {T // bins}*{bins} samples: the symbols 0..bins-1 are not taken "
                          f"by T/bins samples each",
                          {"row": lst(row), "bins": bins, "occupancy(-1..bins)": occ})
+        elif tiefree and T > 0:
+            # round 5, model-free closed form for every T (theorem qbin_occupancy_any_length):
+            # step = ceil(T/bins) samples in every full bin, the rest in the last one, none beyond
+            step = -(-T // bins)
+            exp = [0] + [min(step, max(0, T - step * a)) for a in range(bins + 1)]
+            ctx.count("oracle:quantile_occupancy_ragged")
+            if occ != exp:
+                ctx.fail({"kind": "kernel", "kernel": "_quantile_bin_array", "check": "ragged_occupancy"},
+                         f"tie-free row of T = {T} samples, bins = {bins}: the symbols are not taken by "
+                         f"min(step, T - step*a) samples (step = ceil(T/bins) = {step})",
+                         {"row": lst(row), "bins": bins, "occupancy(-1..bins)": occ, "expected": exp})
     # public method: the marginal entropy of an equally occupied partition is log(bins)
     for c in range(6 if quick else 40):
         bins = rng.choice([2, 3, 4, 6, 8])
@@ -1090,7 +1105,7 @@ def model_round4(ctx, rng, nprng, quick):
                               "expected": float(ref)})
 
         def compare(m, got=got, N=N, lay=lay):
-            if m == "singular":
+            if m.startswith("singular"):
                 return "model: covariance matrix singular, but numpy reports a small condition number"
             cert, ninv, pc, piv = m.split("|")
             if cert != "1":
@@ -1123,6 +1138,276 @@ def model_round4(ctx, rng, nprng, quick):
                    f"inverse == residual correlation given all other series, all pivots regular ({len(schur)} entries, N up to 6)",
                    "correspondence", all(schur) and (len(schur) > 0), "normInvSq != parCorrSqG on some entry")
     return bad
+
+# --------------------------------------------------------------------------
+# round 5: completeness of the elimination (the model of numpy.linalg.inv) — `gjker`, and exactly
+# collinear series through PartialCorrelationClimateNetwork
+# --------------------------------------------------------------------------
+
+def frac_rank(rows):
+    """rank of a rational matrix (list of rows of Fractions) — plain elimination, independent of the
+    Lean model (no pivot-row bookkeeping is shared with it)"""
+    M = [list(r) for r in rows]
+    rank, ncol = 0, (len(M[0]) if M else 0)
+    for c in range(ncol):
+        p = next((r for r in range(rank, len(M)) if M[r][c] != 0), None)
+        if p is None:
+            continue
+        M[rank], M[p] = M[p], M[rank]
+        for r in range(len(M)):
+            if r != rank and M[r][c] != 0:
+                f = M[r][c] / M[rank][c]
+                M[r] = [a - f * b for a, b in zip(M[r], M[rank])]
+        rank += 1
+    return rank
+
+
+def first_dependent_column(C):
+    """least c such that column c of C is a combination of the columns before it"""
+    N = len(C)
+    for c in range(N):
+        if frac_rank([row[:c + 1] for row in C]) == c:
+            return c
+    return None
+
+
+def check_kernel_answer(m, C, N):
+    """`singular|c|w` against the matrix C (Fractions): theorem gjKernel_witness, executed"""
+    parts = m.split("|")
+    if len(parts) != 3 or parts[0] != "singular" or parts[1] == "none":
+        return f"expected singular|c|w, got {m[:120]}"
+    c, w = int(parts[1]), dec_rats(parts[2])
+    if len(w) != N or not (0 <= c < N):
+        return f"witness has {len(w)} entries / column {c}, N = {N}"
+    if w[c] != -1 or any(w[l] != 0 for l in range(c + 1, N)):
+        return f"witness {w} is not (-1 at the failing column {c}, 0 beyond)"
+    if any(sum(C[k][l] * w[l] for l in range(N)) != 0 for k in range(N)):
+        return f"C·w != 0 for the witness {w}"
+    fd = first_dependent_column(C)
+    if fd != c:
+        return f"failing column {c}, but the first column depending on its predecessors is {fd}"
+    return None
+
+
+def model_round5(ctx, rng, nprng, quick):
+    from pyunicorn.climate import PartialCorrelationClimateNetwork
+    cor = Cor(ctx, "Lean Coupling5 model: gjInverse returns a matrix exactly for the regular matrices (exact inverse, "
+                   "== numpy.linalg.inv to 1e-8) and a kernel vector C·w = 0 otherwise; exactly collinear series: "
+                   "the witness combination vanishes at every sample")
+
+    # ---- (1) the elimination on rational matrices: regular <-> full rank, witness, numpy.linalg.inv
+    for c in range(150 if quick else 1500):
+        N = rng.choice([1, 2, 2, 3, 3, 4, 5, 6])
+        kind = rng.choice(["int", "int", "gram", "rowcombo", "zerocol", "perm", "rational", "pow2", "duprow",
+                           "lowrank", "symsing"])
+        C = [[Fraction(rng.randrange(-4, 5)) for _ in range(N)] for _ in range(N)]
+        if kind == "gram":
+            T = rng.choice([N - 1, N, N + 1, N + 3]) or 1
+            X = [[Fraction(rng.randrange(-3, 4)) for _ in range(T)] for _ in range(N)]
+            C = [[sum(a * b for a, b in zip(X[i], X[j])) for j in range(N)] for i in range(N)]
+        elif kind == "rowcombo" and N >= 2:
+            r = rng.randrange(N)
+            co = [Fraction(rng.randrange(-2, 3)) for _ in range(N)]
+            co[r] = Fraction(0)
+            C[r] = [sum(co[k] * C[k][j] for k in range(N)) for j in range(N)]
+        elif kind == "zerocol":
+            z = rng.randrange(N)
+            for k in range(N):
+                C[k][z] = Fraction(0)
+        elif kind == "perm":
+            # zeros on the diagonal: every column needs a row swap
+            perm = list(range(N))
+            rng.shuffle(perm)
+            C = [[Fraction(rng.choice([-3, -1, 1, 2])) if perm[i] == j else Fraction(0) for j in range(N)]
+                 for i in range(N)]
+            if rng.random() < 0.3 and N >= 2:
+                C[rng.randrange(N)] = [Fraction(0)] * N
+        elif kind == "rational":
+            C = [[Fraction(rng.randrange(-6, 7), rng.choice([1, 2, 3, 4, 7])) for _ in range(N)] for _ in range(N)]
+        elif kind == "pow2":
+            sc = [Fraction(2) ** rng.choice([-40, -20, 0, 20, 40]) for _ in range(N)]
+            C = [[C[i][j] * sc[i] for j in range(N)] for i in range(N)]
+        elif kind == "duprow" and N >= 2:
+            a, b = rng.sample(range(N), 2)
+            mult = Fraction(rng.choice([1, -1, 2]))
+            C[b] = [mult * x for x in C[a]]
+        elif kind == "lowrank":
+            u = [Fraction(rng.randrange(-3, 4)) for _ in range(N)]
+            v = [Fraction(rng.randrange(-3, 4)) for _ in range(N)]
+            C = [[u[i] * v[j] for j in range(N)] for i in range(N)]
+        elif kind == "symsing" and N >= 2:
+            # covariance-like: symmetric, one series an exact combination of the others
+            T = N + 3
+            X = [[Fraction(rng.randrange(-3, 4)) for _ in range(T)] for _ in range(N)]
+            k = rng.randrange(N)
+            co = [Fraction(rng.randrange(-2, 3)) for _ in range(N)]
+            co[k] = Fraction(0)
+            X[k] = [sum(co[a] * X[a][t] for a in range(N)) for t in range(T)]
+            C = [[sum(a * b for a, b in zip(X[i], X[j])) for j in range(N)] for i in range(N)]
+        rank = frac_rank(C)
+        ctx.case(("gjker", N, tuple(tuple(r) for r in C)), N >= 2 and any(x != 0 for r in C for x in r))
+        ctx.count(f"model:gjker:{kind}:{'regular' if rank == N else 'singular'}")
+        Cf = np.array([[float(x) for x in r] for r in C], dtype=float)
+
+        def compare(m, C=C, N=N, rank=rank, Cf=Cf, kind=kind):
+            if rank < N:
+                return check_kernel_answer(m, C, N)
+            if not m.startswith("regular|"):
+                return f"matrix of full rank {N}, model answers {m[:120]}"
+            Pm = dec_rats(m.split("|")[1])
+            P = [Pm[i * N:(i + 1) * N] for i in range(N)]
+            I = [[Fraction(int(i == j)) for j in range(N)] for i in range(N)]
+            PC = [[sum(P[i][l] * C[l][j] for l in range(N)) for j in range(N)] for i in range(N)]
+            CP = [[sum(C[i][l] * P[l][j] for l in range(N)) for j in range(N)] for i in range(N)]
+            if PC != I or CP != I:
+                return "model inverse is not the inverse (exact)"
+            # the library call of the anchored code on the same matrix
+            if kind != "pow2" and np.linalg.cond(Cf) < 1e6:
+                Pn = np.linalg.inv(Cf)
+                Pf = np.array([[float(x) for x in r] for r in P])
+                if not np.all(np.abs(Pn - Pf) <= 1e-8 * (1.0 + np.abs(Pf).max())):
+                    return f"numpy.linalg.inv {Pn.tolist()} model {Pf.tolist()}"
+            return None
+        cor.add(f"gjker {N} {enc_rats(x for r in C for x in r)}", compare)
+
+    # ---- (2) exactly collinear series through the implementation -----------------------------
+    with quiet():
+        net = make_climate(PartialCorrelationClimateNetwork, nprng.randn(10, 3))[0]
+    for c in range(24 if quick else 200):
+        N = rng.choice([2, 3, 4, 4, 5, 6])
+        T = rng.randrange(N + 4, 26)
+        d = nprng.randint(-4, 5, size=(T, N)).astype(float)
+        for i in range(N):
+            if np.ptp(d[:, i]) == 0:
+                d[rng.randrange(T), i] += 1.0
+        kind = rng.choice(["dup", "affine", "anti", "sum2", "comb3", "regular"])
+        k = rng.randrange(1, N)
+        if kind == "dup":
+            d[:, k] = d[:, 0]
+        elif kind == "affine":
+            d[:, k] = 2.0 * d[:, 0] + 3.0
+        elif kind == "anti":
+            d[:, k] = -d[:, 0] + 1.0
+        elif kind == "sum2" and N >= 3:
+            a, b = [x for x in range(N) if x != k][:2]
+            d[:, k] = d[:, a] + d[:, b]
+        elif kind == "comb3" and N >= 4:
+            a, b, e = [x for x in range(N) if x != k][:3]
+            d[:, k] = d[:, a] - 2.0 * d[:, b] + d[:, e] + 1.0
+        if np.ptp(d[:, k]) == 0:
+            continue
+        X = [[Fraction(int(v)) for v in d[:, a]] for a in range(N)]
+        Xc = [[v - sum(col) / T for v in col] for col in X]
+        rank = frac_rank(Xc)
+        collinear = rank < N
+        an = d - d.mean(axis=0)
+        lay = rng.choice(["f64C", "f64F", "f32C"])
+        an_in = an.astype(np.float32 if "f32" in lay else np.float64)
+        an_in = np.asfortranarray(an_in) if lay.endswith("F") else np.ascontiguousarray(an_in)
+        # the implementation must return a matrix (no exception) on every such input; an exception is
+        # turned into a `crash` failure by run()
+        with quiet():
+            det = float(np.linalg.det(np.corrcoef(an_in.transpose()).astype("float64")))
+            try:
+                got = np.asarray(net.calculate_similarity_measure(an_in), dtype=float)
+            except Exception as e:  # noqa  (numpy's LinAlgError is raised in a numpy frame)
+                ctx.fail({"kind": "climate", "class": "PartialCorrelationClimateNetwork", "check": "raises",
+                          "input_class": f"collinear:{kind}", "exception": type(e).__name__},
+                         f"calculate_similarity_measure raised {type(e).__name__}: {e} on exactly collinear series",
+                         {"data": lst(d), "layout": lay})
+                got = np.full((N, N), np.nan)
+        ctx.case(("collinear5", T, N, kind, lay, d.tobytes().hex()), True)
+        ctx.count(f"data:collinear:{kind if collinear else 'regular'}:{'pinv' if det == 0.0 else 'inv'}-branch")
+        if got.shape != (N, N):
+            ctx.fail({"kind": "climate", "class": "PartialCorrelationClimateNetwork", "check": "shape",
+                      "input_class": f"collinear:{kind}"},
+                     f"result has shape {got.shape} for {N} series", {"data": lst(d), "layout": lay})
+        elif collinear and det == 0.0 and "f64" in lay and not np.all(np.isnan(got)):
+            # pseudo-inverse branch (`det(C) == 0.0`): the pseudo-inverse of a symmetric positive
+            # semi-definite matrix is symmetric positive semi-definite, so the normalised matrix is
+            # symmetric, bounded by 1 and has -1 on the diagonal — whatever the statistic means there
+            if not (np.all(np.isfinite(got)) and np.all(np.abs(got - got.T) <= 1e-6)
+                    and np.all(np.abs(got) <= 1.0 + 1e-6) and np.all(np.abs(np.diag(got) + 1.0) <= 1e-6)):
+                ctx.fail({"kind": "climate", "class": "PartialCorrelationClimateNetwork", "check": "pinv-branch",
+                          "input_class": f"collinear:{kind}"},
+                         "pseudo-inverse branch: the normalised matrix is not symmetric / bounded by 1 / -1 on the diagonal",
+                         {"data": lst(d), "layout": lay, "observed": lst(got)})
+
+        def compare(m, X=X, Xc=Xc, N=N, T=T, collinear=collinear):
+            if not collinear:
+                return "model: singular, but the centred series have full rank" if m.startswith("singular") else None
+            parts = m.split("|")
+            if parts[0] != "singular" or len(parts) != 3 or parts[1] == "none":
+                return f"exactly collinear series, model answers {m[:100]}"
+            cc, w = int(parts[1]), dec_rats(parts[2])
+            if len(w) != N or w[cc] != -1 or any(w[l] != 0 for l in range(cc + 1, N)):
+                return f"witness {w} / column {cc}"
+            # theorem partial_correlation_fails_iff_collinear: the combination vanishes at every sample
+            if any(sum(w[a] * Xc[a][t] for a in range(N)) != 0 for t in range(T)):
+                return f"the combination with weights {w} of the centred series does not vanish"
+            # the failing column is the first series that is a combination of its predecessors
+            first = next(cn for cn in range(N) if frac_rank(Xc[:cn + 1]) == cn)
+            return None if first == cc else f"failing column {cc}, first dependent series {first}"
+        cor.add(f"pcorr {T} {N} {flat_series_major(d)}", compare)
+
+    # ---- (3) reordered series: the partial-correlation matrix is permuted consistently ---------
+    # (theorem partial_correlation_relabel; on the implementation: model-free relation)
+    pend = {}
+    for c in range(16 if quick else 150):
+        N = rng.choice([3, 4, 5, 6])
+        T = rng.randrange(N + 6, 30)
+        d = nprng.randint(-4, 5, size=(T, N)).astype(float)
+        if rng.random() < 0.4:
+            d[:, N - 1] = d[:, 0] + nprng.randint(-1, 2, size=T)
+        for i in range(N):
+            if np.ptp(d[:, i]) == 0:
+                d[rng.randrange(T), i] += 1.0
+        if np.linalg.cond(np.corrcoef(d.T)) > 1e3:
+            ctx.count("data:partial_reorder:ill_conditioned_skipped")
+            continue
+        perm = list(range(N))
+        while perm == list(range(N)):
+            rng.shuffle(perm)
+        dp = d[:, perm]
+        lay = rng.choice(["f64C", "f64F"])
+        mk = (lambda a: np.asfortranarray(a)) if lay.endswith("F") else (lambda a: np.ascontiguousarray(a))
+        with quiet():
+            g0 = np.asarray(net.calculate_similarity_measure(mk(d - d.mean(axis=0))), dtype=float)
+            g1 = np.asarray(net.calculate_similarity_measure(mk(dp - dp.mean(axis=0))), dtype=float)
+        ctx.case(("pcorr-reorder", T, N, tuple(perm), lay, d.tobytes().hex()), True)
+        ctx.count(f"oracle:partial_correlation_reordered:N={N}")
+        exp = g0[np.ix_(perm, perm)]
+        if not np.all(np.abs(g1 - exp) <= 1e-7):
+            ctx.fail({"kind": "climate", "class": "PartialCorrelationClimateNetwork", "check": "reordered",
+                      "input_class": f"N={N}:{lay}"},
+                     "reordering the series does not permute the partial-correlation matrix consistently",
+                     {"data": lst(d), "perm": perm, "layout": lay, "observed": lst(g1), "expected": lst(exp)})
+        # affine images a_i x_i + b_i with exact powers of two (theorem partial_correlation_affine_invariant):
+        # off-diagonal entries change by sign(a_i a_j) only
+        sc = np.array([rng.choice([1.0, -1.0]) * 2.0 ** rng.choice([-20, 0, 3, 20]) for _ in range(N)])
+        da = d * sc + sc * np.array([float(rng.randrange(-8, 9)) for _ in range(N)])
+        with quiet():
+            g2 = np.asarray(net.calculate_similarity_measure(mk(da - da.mean(axis=0))), dtype=float)
+        sg = np.sign(np.outer(sc, sc))
+        off = ~np.eye(N, dtype=bool)
+        ctx.count("oracle:partial_correlation_affine_images")
+        if not np.all(np.abs(g2 - sg * g0)[off] <= 1e-7):
+            ctx.fail({"kind": "climate", "class": "PartialCorrelationClimateNetwork", "check": "affine",
+                      "input_class": f"N={N}:{lay}"},
+                     "affine images a_i x_i + b_i change an off-diagonal entry by more than the factor sign(a_i a_j)",
+                     {"data": lst(d), "scales": lst(sc), "layout": lay, "observed": lst(g2), "expected": lst(sg * g0)})
+        cor.add(f"pcorr {T} {N} {flat_series_major(d)}", lambda m, c=c: pend.__setitem__(c, m))
+
+        def cmp_perm(m, c=c, N=N, perm=perm):
+            m0 = pend.get(c)
+            if m0 is None or m0.startswith("singular") or m.startswith("singular"):
+                return f"model: singular on well-conditioned data ({str(m0)[:40]} / {m[:40]})"
+            a = m0.split("|")[1].split(",")
+            b = m.split("|")[1].split(",")
+            want = [a[perm[i] * N + perm[j]] for i in range(N) for j in range(N)]
+            return None if b == want else f"model on reordered data {b} is not the permuted matrix {want}"
+        cor.add(f"pcorr {T} {N} {flat_series_major(dp)}", cmp_perm)
+    return cor.run()
 
 # --------------------------------------------------------------------------
 # oracle, wide: large samples, float32 caller arrays, power-of-two affine images, call histories
